@@ -161,7 +161,7 @@ func macroCurryFun(env *LEnv, args *LVal) *LVal {
 	callCells = append(callCells, argExprs...)
 	callCells = append(callCells, argsym)
 	return SExpr([]*LVal{
-		Symbol("lambda"),
+		Symbol("lisp:lambda"),
 		SExpr([]*LVal{
 			Symbol(VarArgSymbol),
 			argsym,
